@@ -12,7 +12,7 @@ from .core import Exec, St, Unsupported, PathLimit, Obligation
 
 REPO_SRC = os.environ.get('PYVC_REPO_SRC', '/repo/src/mpservice')
 
-DEFAULT_IGNORED_CALLS = ('logger.*', 'util.debug', 'util.info', 'logging.*', 'traceback.print_exc', 'warnings.warn')
+DEFAULT_IGNORED_CALLS = ('logger.*', 'util.debug', 'util.info', 'traceback.print_exc', 'warnings.warn')
 
 
 class LoopSpec:
@@ -116,7 +116,7 @@ class Unit:
             s2.assume(k >= 0, k <= z3.Length(seq))
             s2.ghost['out'] = z3.SubSeq(full, 0, z3.Length(full) - z3.Length(seq) + k)
             ge = fresh('genexit')
-            s2.assume(V.ucls(ge) == V.K['GeneratorExit'])
+            s2.assume(V.ucls(ge) == V.K['GeneratorExit'], *V.cls_facts(ge))
             res.append(('raise', s2, ge))
         return res
 
